@@ -4,6 +4,7 @@ offset, total size, bounds incl. overflow, bytes available, magic, source exclus
 HEADER-ORDER: writer and reader agree on the six header words.  Plus the C02 taint obligations for the two tunnel files (run by C02)."""
 import re
 from msa import guards as G
+from msa import ip as IP
 from msa import pair as P
 from msa import ast as A
 from msa import cfg as C
@@ -216,8 +217,11 @@ def run(res, tier):
     # ---------------------------------------------------------------------------------- HEADER-ORDER
     res.rule('HEADER-ORDER', 'the writer emits and the reader consumes the six fragment header words in the same order: magic, source-exclusion id, message id, offset, chunk size, total size', floor=1)
     w = fx.fn1(PT + '::DoOutputImplementation')
-    wr = [c for c in w.walk() if c['k'] == 'CXXMemberCallExpr' and (c.get('q') or '').endswith('DataFlattenerHelper::WriteInt32')]
-    wr.sort(key=lambda c: c['i'])
+    # the six header writes, in execution order, in DoOutputImplementation itself or in a helper it hands the flattener to (msa/ip.py)
+    is_w32 = lambda c: c['k'] == 'CXXMemberCallExpr' and (c.get('q') or '').endswith('DataFlattenerHelper::WriteInt32')
+    wr = []
+    for (top, leaves) in sorted(IP.may_sites(fx, w, is_w32, r'PacketTunnelIOGateway|^muscle::\w+$|^\w+$'), key=lambda tl: tl[0]['i']):
+        wr += sorted(leaves, key=lambda gl: gl[1]['i'])
     rd = sorted((v for v in f.walk() if v['k'] == 'VarDecl' and is_wire(v['d'])), key=lambda v: v['i'])
     roles_r = {}
     if mg:
@@ -229,12 +233,14 @@ def run(res, tier):
     if rssz:
         roles_r['total'] = rssz[2]
     order_r = [next((k for k, d in roles_r.items() if d == v['d']), 'sex' if i == 1 else '?') for i, v in enumerate(rd)]
-    def wrole(c):
-        a = A.strip_casts(c.args()[0])
+    def wrole(gc):
+        (g_, c) = gc
+        (h_, a) = IP.resolve_arg(fx, g_, c.args()[0], r'PacketTunnelIOGateway|^muscle::\w+$|^\w+$')
+        a = A.strip_casts(a)
         if a['k'] == 'MemberExpr' and A.is_this_member(a):
             return {'_magic': 'magic', '_sexID': 'sex', '_sendMessageIDCounter': 'mid', '_currentOutputBufferOffset': 'offset'}.get(a.get('n'), '?' + a.get('n'))
         if 'd' in a:
-            e = local_def(w, a['d'])
+            e = local_def(h_, a['d'])
             if e is not None and any((x.get('q') or '').endswith('muscleMin') for x in e.walk() if x.is_call()):
                 return 'chunk'
             if e is not None and any((x.get('q') or '').endswith('ByteBuffer::GetNumBytes') for x in e.walk() if x.is_call()):
